@@ -403,6 +403,10 @@ def logout_corpus():
            ('logout', 1), ('lookup', 'zed!z@z'), ('identify', 1, 'zed!z@z'), ('lookup', 'zed!z@z'), ('unidentify', 1), ('lookup', 'zed!z@z'), ('dump',)]
     yield [('reset', 10), ('register', 'alice', None), ('identify', 1, 'zed!z@z'), ('tick', 8), ('identify', 1, 'zed!z@z'), ('tick', 5),
            ('lookup', 'zed!z@z'), ('tick', 6), ('lookup', 'zed!z@z'), ('dump',)]
+    # logins A@0, B@4, A again@8 with timeout 10: at t=16 B's login is over although A's, renewed, is not (seeded C04-r2m2)
+    yield [('reset', 10), ('register', 'alice', None), ('identify', 1, 'alice!u@h'), ('tick', 4), ('identify', 1, 'zed!z@z'), ('tick', 4),
+           ('identify', 1, 'alice!u@h'), ('lookup', 'zed!z@z'), ('tick', 8), ('lookup', 'zed!z@z'), ('lookup', 'alice!u@h'), ('dump',),
+           ('tick', 3), ('lookup', 'alice!u@h'), ('dump',)]
     # users.conf with two accounts whose masks have a hostmask in common (seeded C04-r4m3): the later one loses its masks
     yield [('reset', 0), ('load', 1, 'ann', 0, ['ann*!*@*.example']), ('load', 2, 'bea', 0, ['*bea!*@*.example', 'bea!*@home']),
            ('dump',), ('lookup', 'annbea!x@y.example'), ('lookup', 'bea!b@home'), ('load', 3, 'cat', 0, ['ANN*!*@*']), ('lookup', 'annie!a@b'), ('dump',)]
